@@ -230,6 +230,11 @@ def judge_curvature(ctx, name, seg, t, ret):
         d1, d2 = X.cfl(X.bez_deriv(bps, t, 1)), X.cfl(X.bez_deriv(bps, t, 2))
     # rounding of the cross product x'y'' - y'x'' (it cancels completely on straight pieces)
     cancel = 256 * EPS * (abs(d2) + abs(d1)) / abs(d1) ** 2
+    # ... and B', B'' themselves are only known to eps*|P| (they are differences of control points / power-basis
+    # coefficients): next to a cusp, where |B'| is tiny, that error is what is left of the cross product
+    if n != 'Arc':
+        mag = max(abs(complex(q)) for q in bps)
+        cancel += 64 * EPS * mag * (abs(d2) + abs(d1)) / abs(d1) ** 3
     ctx.verdict()
     try:
         got = float(ret)
